@@ -6,6 +6,11 @@ def _alarm(signum, frame): raise CaseTimeout()
 def main():
     prop, inp, outp = sys.argv[1:4]
     warnings.simplefilter("ignore")
+    cov = None
+    if os.environ.get("CF_COVERAGE"):       # measurement of what the checks execute in /repo (tools/coverage_report.sh); off in every registered command
+        import coverage
+        cov = coverage.Coverage(data_file=os.path.join(os.environ["CF_COVERAGE"], ".coverage"), data_suffix=True, source=[os.path.join(os.environ.get("CF_REPO", "/repo"), "chipfiring")])
+        cov.start()
     import chipfiring
     repo = os.environ.get("CF_REPO", "/repo")
     assert os.path.abspath(chipfiring.__file__).startswith(os.path.abspath(repo) + os.sep), "chipfiring not imported from " + repo
@@ -29,4 +34,5 @@ def main():
             out.append({"exc": type(e).__name__, "msg": str(e)[:300], "tb": traceback.format_exc()[-1500:]})
         sink.seek(0); sink.truncate(0)
     json.dump(out, open(outp, "w"))
+    if cov: cov.stop(); cov.save()
 main()
